@@ -82,12 +82,29 @@ func (h OperatorHooksWrapper) AfterOperatorKeyRemovalInitiated(
 	consAddr := key.ToConsAddr()
 	if chainID == avstypes.ChainIDWithoutRevision(ctx.ChainID()) {
 		_, found := h.keeper.GetExocoreValidator(ctx, consAddr)
+		if !found {
+			// the operator may have replaced its key during this epoch, in which case it is
+			// still validating (and slashable) with the previous one.
+			if hasPrev, prevKey, _ := h.keeper.operatorKeeper.GetOperatorPrevConsKeyForChainID(
+				ctx, operator, chainID,
+			); hasPrev {
+				_, found = h.keeper.GetExocoreValidator(ctx, prevKey.ToConsAddr())
+			}
+		}
 		if found {
 			h.keeper.SetOptOutInformation(ctx, operator)
 		} else {
-			h.keeper.operatorKeeper.DeleteOperatorAddressForChainIDAndConsAddr(
-				ctx, chainID, consAddr,
-			)
+			// the operator never became active with this key, so there is nothing to unbond:
+			// finish the removal right away (this also deletes the reverse lookup of consAddr).
+			// leaving the removal marker behind without an opt out epoch would make every later
+			// undelegation from this operator fail, and prevent it from ever opting in again.
+			if err := h.keeper.operatorKeeper.CompleteOperatorKeyRemovalForChainID(
+				ctx, operator, chainID,
+			); err != nil {
+				h.keeper.Logger(ctx).Error(
+					"error completing operator key removal", "error", err,
+				)
+			}
 		}
 	}
 }
